@@ -3,7 +3,7 @@ CONSTANTS
   Keys = {1, 2}
   Vals = {1, 2}
   MaxChain = 3
-  MaxWrites = 8
+  MaxWrites = 9
   MaxReopens = 2
   DevF7 = FALSE
 INVARIANTS TypeOK ReopenSeesPersisted ChainMatchesFile ChainBounded AgesOK MemoryCoversFile FilterSound
